@@ -20,6 +20,7 @@ import json
 import os
 import random
 import shutil
+import time
 
 from . import common
 
@@ -27,7 +28,7 @@ from . import common
 PARTS = {"ver": 1, "len": 2, "rsa": 2, "tag": 2}
 CT_CELLS = {"empty": 0, "one": 1}
 TAGLEN = 16  # AES-GCM tag
-BOUNDARY_LENS = [2, 3, 4, 5, 15, 16, 17, 31, 32, 33, 47, 48, 49, 64, 100, 150, 255, 256, 299, 300]
+BOUNDARY_LENS = [2, 3, 4, 15, 16, 17, 32, 33, 64, 255, 256, 300]
 
 
 def _keys(tier):
@@ -64,6 +65,10 @@ def _lens(tc, tier, rnd, nsteps, key):
         return [0]
     if tc == "one":
         return list(range(12)) if nsteps <= 1 else rnd.sample(range(12), 2)
+    if nsteps == 0 and key == "right" and tier != "quick":
+        return list(range(2, 301))      # round trip: every length in every class
+    if nsteps >= 2 and key == "wrong":
+        return [rnd.choice([2, 3, 16, 17, rnd.randint(4, 300)])]
     if nsteps >= 2 or key == "wrong":
         return sorted({rnd.choice([2, 3, 4, 5, 16, 17]), rnd.randint(6, 300)})
     if tier == "quick":
@@ -93,7 +98,7 @@ def _seal_cases(chk, behaviours, keys):
         wrong = others[:3] + malformed + [kp["pub"]]
         lens = _lens(b["tc"], tier, rnd, n, b["key"])
         parts = dict(PARTS, ct=CT_CELLS.get(b["tc"], 2))
-        cap1 = 0 if (n <= 1 and b["key"] == "right") else (32 if b["key"] == "right" else 10)
+        cap1 = 0 if (n <= 1 and b["key"] == "right") else (20 if b["key"] == "right" else 4)
         if b["key"] == "wrong" and n <= 1:
             cap1 = 24
         chunk = 4 if tier == "quick" else 12
@@ -111,7 +116,7 @@ def _seal_cases(chk, behaviours, keys):
 
 def _verify_cases(chk, cells, keys, tmp):
     rnd = random.Random(common.seed() + 1)
-    nseal = 400 if chk.tier == "quick" else 4000
+    nseal = 400 if chk.tier == "quick" else 2000
     sealed_idx = set(rnd.sample(range(len(cells)), min(nseal, len(cells))))
     cases = []
     for i, c in enumerate(cells):
@@ -161,6 +166,8 @@ def run(chk):
     common.build_harness()
     keys = _keys(tier)
     fidelity = {}
+    phases = {}
+    t0 = time.time()
 
     # ---- Seal -----------------------------------------------------------
     res = common.run_tlc("Seal", "Seal.cfg", defines={"TIER": tier, "AUTH": "TRUE"}, timeout=300)
@@ -179,7 +186,11 @@ def run(chk):
         chk.add_tlc(deep, "Seal deep (3 tamper steps, invariants only)")
     scases = _seal_cases(chk, behaviours, keys)
     common.log("C20: %d seal behaviours -> %d replay cases" % (len(behaviours), len(scases)))
+    phases["seal_tlc"] = time.time() - t0
+    t0 = time.time()
     sres = common.replay(scases, deadline="600s", name="c20seal")
+    phases["seal_replay"] = time.time() - t0
+    t0 = time.time()
     _triage(chk, scases, sres, fidelity)
     for c in scases[:1] + [c for c in scases if c["predicted"] == "original-or-reject"][:1]:
         o = sres[c["id"]].get("obs") or {}
@@ -203,7 +214,10 @@ def run(chk):
     try:
         vcases = _verify_cases(chk, cells, keys, tmp)
         common.log("C20: %d verify cells" % len(vcases))
+        phases["verify_tlc"] = time.time() - t0
+        t0 = time.time()
         vr = common.replay(vcases, deadline="120s", name="c20verify")
+        phases["verify_replay"] = time.time() - t0
     finally:
         shutil.rmtree(tmp, ignore_errors=True)
     _triage(chk, vcases, vr, fidelity)
@@ -213,6 +227,7 @@ def run(chk):
         chk.sample({"cell": {k: c[k] for k in ("form", "atype", "n", "out", "marked", "expect")},
                     "answer": o.get("answer"), "verdict": o.get("verdict")})
 
+    chk.extra["phase_wall_s"] = {k: round(v, 1) for k, v in phases.items()}
     chk.extra["seal_behaviours"] = len(behaviours)
     chk.extra["seal_replay_cases"] = len(scases)
     chk.extra["verify_cells"] = len(vcases)
@@ -236,7 +251,7 @@ def run(chk):
         "an adversary who makes a NEW sealed value with the public key is outside the property (corruptions of a sealed value)",
         "the outcome class predicted by the model (original / reject) is compared with the code for information only "
         "(model_vs_code_outcome): the property allows either for an altered value",
-        "two-step schedules, wrong-key schedules: first step sampled (32 / 10..24 variants), later steps 3 / 2 variants",
+        "two-step schedules, wrong-key schedules: first step sampled (20 / 4..24 variants), later steps 3 / 2 variants",
         "Verify: outputs are three clearly different values; questions are built valid, an error other than ErrWrongAnswer is a "
         "harness error; empty answers and single-choice answers with several letters are refused before verification and "
         "are not cells",
